@@ -64,6 +64,13 @@ def load_variants(pid):
             pp = os.path.join(bd, d, "patch.diff")
             if not os.path.exists(pp):
                 continue
+            mp2 = os.path.join(bd, d, "meta.json")
+            try:
+                with open(mp2) as f:
+                    if json.load(f).get("status", "confirmed") != "confirmed":
+                        continue
+            except (OSError, ValueError):
+                pass
             files = set(patch_files(pp))
             if not (d.startswith(pid + "-") or files & consulted):
                 continue
